@@ -169,11 +169,49 @@ def check_C06():
 
 def check_C07():
     ctx = Ctx("C07"); cov = {}
-    broken = proof_part(ctx, "props/C07.v", ["proofs/C07_range.v", "proofs/C01_ops.v", "proofs/SpecExec_sound.v", "proofs/C11_table.v", "proofs/C11_lists.v"], cov)
+    broken = proof_part(ctx, "props/C07.v", ["proofs/C07_range.v", "proofs/C01_ops.v", "proofs/SpecExec_sound.v", "proofs/C11_table.v", "proofs/C11_lists.v",
+                                             "proofs/X_basic.v", "proofs/X_inv.v", "proofs/X_c13.v", "proofs/X_own.v", "proofs/X_chain.v", "proofs/X_c04.v",
+                                             "proofs/X_lin.v", "proofs/X_resize.v", "proofs/X_count.v", "proofs/X_range.v", "XMachine.v"], cov)
     cache_seq_part(ctx, "C07", cov, N(ctx, 1200, 20000), broken)
     table_part(ctx, "C07", cov, N(ctx, 60, 600), [])
-    cov["rule"] = "every Range/Items answer of the implementation is tested by range_okb (no duplicate, only live current pairs, stops exactly when told, otherwise complete) and compared with the model visiting in the same order"
-    return ctx.finish(cov, ["cache level, sequential, non-mutating visitors from the named family"])
+    # every schedule: the Range theorems are about XMachine; schedules of the real code that contain a traversal are replayed
+    # on it step by step (mapof.go) and on XMachineS (map.go, visitors that call back into the map included)
+    def sel(b):
+        sc, r, why = b
+        ops = json.dumps((sc or {}).get("threads", []))
+        return "Range" in ops or "crashed" in why
+    xcorr_part(ctx, "C07", cov, _x_sets(ctx, N(ctx, 200, 3000)), sel)
+    xcorrs_part(ctx, "C07", cov, N(ctx, 100, 2000), sel)
+    # on the real code, all containers: every traversal of every schedule is checked (lincheck range-check: no key twice, only
+    # pairs stored under that key by a call that began before the traversal returned, every untouched present key visited);
+    # tables at the grow threshold so that traversals overlap table copies; visitors that delete / store / insert / clear
+    from . import sched
+    n = N(ctx, 500, 10000)
+    sched_part(ctx, "C07", cov, directed=False,
+               sets=[("Map", n, ["-prefill", "73", "-clear", "0"]), ("MapOf_int", n, ["-hasher", "const", "-prefill", "125", "-clear", "0"]),
+                     ("MapOf_str", n, ["-prefill", "121"]), ("Map", n, []), ("MapOf_int", n, ["-threads", "4", "-ops", "4", "-sched", "mix"]),
+                     ("Cache", n, []), ("CacheOf_int", n, [])])
+    tools, _ = sched.build(ctx)
+    if all(tools.values()):
+        scen = reentrant_scenarios()
+        rows, err = sched.run_scenarios(tools, "\n".join(json.dumps(x) for x in scen) + "\n")
+        nbad = 0
+        for row in (rows or []):
+            if "C07" in sched.classify(row):
+                nbad += 1
+                if nbad <= 2:
+                    sc, res, lc = row
+                    ctx.violation("reentrant-%d" % nbad, dict(correspondence="CORR-sched", scenario={k: v for k, v in (sc or {}).items() if k != "setup"},
+                                  failing_op=json.dumps((sc or {}).get("threads"))[:300], checker=lc), failing_input=True,
+                                  what="a traversal whose visitor mutates the container: " + "; ".join(lc.get("violations", []))[:200])
+        cov["reentrant_visitor_scenarios"] = len(rows or [])
+    if broken and not ctx.violations:
+        ctx.violation("proof", dict(broken=broken), failing_input=False, what="proof obligation no longer checks")
+    cov["rule"] = ("sequential: every Range/Items answer of the implementation is tested by range_okb (no duplicate, only live current pairs, stops exactly when told, otherwise complete) and compared with the model visiting in the same order; "
+                   "every schedule: theorems on XMachine (visits of a call have distinct keys; the pairs taken under a bucket lock are exactly the visible ones of that bucket), machine replayed step by step on schedules with traversals; "
+                   "real code, all containers: range-check on every traversal of every schedule (no key twice, no phantom pair, untouched present keys all visited), traversals overlapping grows, mutating visitors")
+    return ctx.finish(cov, ["cache level: sequential theorems, non-mutating visitors from the named family; interleavings searched",
+                            "completeness of a concurrent traversal ('every key present throughout is visited') is searched, not proved"])
 
 def check_C08():
     ctx = Ctx("C08"); cov = {}
@@ -388,15 +426,24 @@ def check_C02():
 
 def check_C05():
     ctx = Ctx("C05"); cov = {}
-    broken = proof_part(ctx, "props/C05.v", ["proofs/C05_spec.v", "proofs/C05_map.v", "proofs/C02_lin.v", "proofs/C02_methods.v", "proofs/C11_table.v"], cov)
+    broken = proof_part(ctx, "props/C05.v", ["proofs/C05_spec.v", "proofs/C05_map.v", "proofs/C02_lin.v", "proofs/C02_methods.v", "proofs/C11_table.v",
+                                             "proofs/X_basic.v", "proofs/X_inv.v", "proofs/X_c13.v", "proofs/X_fn.v", "XMachine.v"], cov)
     n = N(ctx, 1500, 25000)
     sched_part(ctx, "C05", cov, [("Cache", n, []), ("CacheOf_int", n, []), ("Map", n, ["-prefill", "73"]),
                                  ("MapOf_int", n, ["-hasher", "const", "-prefill", "125"]), ("MapOf_str", n, ["-prefill", "121"])])
     table_part(ctx, "C05", cov, N(ctx, 80, 800), [])
+    # every schedule: C05_x_fn_at_most_once is about XMachine; the schedules of the real MapOf code are replayed on it step by
+    # step, user-function invocations included (and on XMachineS for map.go)
+    def sel(b):
+        sc, r, why = b
+        ops = json.dumps((sc or {}).get("threads", []))
+        return "user-function" in why or "crashed" in why or (("Compute" in ops or "LoadOrCompute" in ops) and "step" in why)
+    xcorr_part(ctx, "C05", cov, _x_sets(ctx, N(ctx, 200, 3000)), sel)
+    xcorrs_part(ctx, "C05", cov, N(ctx, 100, 2000), sel)
     if broken and not ctx.violations:
         ctx.violation("proof", dict(broken=broken), failing_input=False, what="proof obligation no longer checks")
-    cov["rule"] = "racing get-or-create / compute calls on one key under random schedules incl. tables prefilled to the grow threshold (retry after a resize); user-function invocations counted per call; sequential fn counts compared with the table model across grow thresholds"
-    return ctx.finish(cov, ["map-level interleavings are searched, not yet proved (C03/C04)"])
+    cov["rule"] = "theorem on XMachine for every schedule: a call evaluates the user function at most once whatever retries it goes through (machine replayed step by step against the real code, fn calls compared); racing get-or-create / compute calls on one key under random schedules incl. tables prefilled to the grow threshold (retry after a resize); user-function invocations counted per call; sequential fn counts compared with the table model across grow thresholds"
+    return ctx.finish(cov, ["map level: 'at most once' is a theorem for the MapOf machine under every schedule; 'exactly once and atomic with the update' rests on linearizability (C03/C04), which is searched"])
 
 def xcorr_part(ctx, pid, cov, sets, select=None):
     """CORR-sched, exact part: the schedule the controlled scheduler followed on the real
